@@ -490,6 +490,8 @@ theorem swapExactIn_cursor {s : St} {sender : Addr} {pool : Nat} {denomIn denomO
   obtain ⟨x, hx, h⟩ := bind_ok h
   split at h
   · cases h
+  split at h
+  · cases h
   obtain ⟨s2', hu, h⟩ := bind_ok h
   have := res_ok_inj h
   cases this
@@ -508,6 +510,8 @@ theorem swapExactOut_cursor {s : St} {sender : Addr} {pool : Nat} {denomIn denom
   split at h
   · cases h
   obtain ⟨x, hx, h⟩ := bind_ok h
+  split at h
+  · cases h
   split at h
   · cases h
   obtain ⟨s2', hu, h⟩ := bind_ok h
